@@ -78,13 +78,19 @@ impl<'a> G<'a> {
             3..=6 => self.rng.usize(10, 120.min(max)),
             _ => self.rng.usize(100.min(max), max),
         };
-        let keys = match self.rng.below(5) {
+        let mut keys = match self.rng.below(5) {
             0 => 1,
             1 => 2,
             2 => 3,
             3 => 8,
             _ => 50,
         };
+        let mut n = n;
+        // occasionally far more distinct keys than any per-replica table is likely to expect
+        if self.cfg.focus == Focus::Agg && max >= 400 && self.rng.chance(1, 12) {
+            keys = 30_000;
+            n = 40_000;
+        }
         let skew = self.rng.chance(1, 3);
         (0..n)
             .map(|_| {
@@ -215,6 +221,7 @@ impl<'a> G<'a> {
                 7 => self.keyed_agg_op(),
                 8 if !iterate => self.global_agg_op(),
                 9 => UOp::CountWindow { n: self.rng.usize(1, 4), s: 1, exact: self.rng.chance(1, 2), content: false },
+                11 if size <= 300 => UOp::SplitZip { m: self.rng.range(2, 4), filter_left: self.rng.chance(1, 2) },
                 10 if !iterate && depth == 0 && size <= 100 => {
                     let body = self.body(false, depth + 1, size);
                     UOp::Replay { rounds: self.rng.usize(1, 3), body, stop_m: self.rng.range(2, 5), stop_r: self.rng.range(0, 1) }
@@ -229,7 +236,7 @@ impl<'a> G<'a> {
                 UOp::Shuffle | UOp::GroupByFold(_) | UOp::GroupByReduce(_) | UOp::GroupByFold2(_)
                 | UOp::GroupByReduce2(_) | UOp::GroupBySum | UOp::GroupByCount | UOp::GroupByAvg
                 | UOp::GroupByMin | UOp::GroupByMax | UOp::CountWindow { .. } | UOp::Replay { .. } => rep = Rep::Unlimited,
-                UOp::Fold(_) | UOp::Reduce(_) | UOp::FoldAssoc(_) | UOp::ReduceAssoc(_) => rep = Rep::One,
+                UOp::Fold(_) | UOp::Reduce(_) | UOp::FoldAssoc(_) | UOp::ReduceAssoc(_) | UOp::SplitZip { .. } => rep = Rep::One,
                 UOp::FlatMap { c } => size *= *c as usize,
                 _ => {}
             }
@@ -326,12 +333,14 @@ impl<'a> G<'a> {
                     self.open.push(other);
                     return;
                 }
-                let ship = match self.rng.below(4) {
+                let ship = match self.rng.below(6) {
                     0 | 1 => JoinShip::Hash,
-                    2 => JoinShip::BroadcastRight,
-                    _ => JoinShip::Keyed,
+                    2 | 3 => JoinShip::BroadcastRight,
+                    4 => JoinShip::Keyed,
+                    _ => JoinShip::KeyedMixed,
                 };
                 let kind = match (ship, self.rng.below(3)) {
+                    (JoinShip::KeyedMixed, _) => JoinKind::Inner,
                     (JoinShip::BroadcastRight, 2) => JoinKind::Left,
                     (JoinShip::Keyed, 1) => JoinKind::Inner,
                     (_, 0) => JoinKind::Inner,
@@ -346,7 +355,7 @@ impl<'a> G<'a> {
                 let rep = if ship == JoinShip::BroadcastRight { a.rep } else { Rep::Unlimited };
                 self.open.push(VarInfo { id: out, rep, total: false, size: (a.size * b.size).max(a.size + b.size) });
             }
-            5 => match self.rng.below(6) {
+            5 => match self.rng.below(7) {
                 0 => {
                     let n = self.rng.usize(2, 4);
                     let outs: Vec<Var> = (0..n).map(|_| self.fresh()).collect();
@@ -405,6 +414,11 @@ impl<'a> G<'a> {
                         self.total.push(out);
                     }
                     self.open.push(VarInfo { id: out, rep: Rep::One, total: positional, size: a.size.min(b.size) });
+                }
+                5 if self.rng.chance(1, 2) => {
+                    let op = UOp::SplitZip { m: self.rng.range(2, 4), filter_left: self.rng.chance(1, 2) };
+                    let nv = self.push_op(v, op, Rep::One, false, v.size);
+                    self.open.push(nv);
                 }
                 _ => {
                     let nv = self.push_op(v, UOp::Broadcast, Rep::Unlimited, false, v.size);
